@@ -188,6 +188,15 @@ Definition e_load (a : sx) : sx :=
           SL (map (fun n => sx_opt sx_piface (od_get pi_name db n)) ns)
       | _, _ => sx_err
       end
+  | SL [SL files; SL names; SL lookups] =>
+      (* the same, followed by lookups (e_proto's shapes) on the database those files give *)
+      match get_list (fun f => match f with SL l => get_list get_piface l | _ => None end) files,
+            get_list get_s names with
+      | Some fs, Some ns =>
+          let db := load_files fs in
+          SL [SL (map (fun n => sx_opt sx_piface (od_get pi_name db n)) ns); SL (map (e_proto db) lookups)]
+      | _, _ => sx_err
+      end
   | _ => sx_err
   end.
 
